@@ -393,6 +393,41 @@ pub enum ReuseOp {
     Preverify(TxSpec),
     PreverifyThenTransact(TxSpec),
     Spec(u8),
+    /// transact_commit of a transaction sent straight to a precompile (sender, precompile selector) with an input
+    /// whose price depends on the fork (modexp, BN254, BLAKE2F, KZG, BLS): a handler that keeps precompiles of an
+    /// earlier spec shows up in gas_used
+    Precompile(u8, u8),
+}
+
+/// TxSpec of `ReuseOp::Precompile`.
+fn precompile_tx(sender: u8, sel: u8) -> TxSpec {
+    let (addr, data): (u8, Vec<u8>) = match sel % 8 {
+        0 | 1 => {
+            // modexp: base_len 1, exp_len 32, mod_len 32
+            let mut v = vec![0u8; 96];
+            v[31] = 1;
+            v[63] = 32;
+            v[95] = 32;
+            v.push(3);
+            v.extend_from_slice(&[0xff; 32]);
+            v.extend_from_slice(&[0xfe; 32]);
+            (5, v)
+        }
+        2 => (6, vec![0u8; 128]),
+        3 => (7, vec![0u8; 96]),
+        4 => (8, vec![]),
+        5 => {
+            let mut v = vec![0u8; 213];
+            v[3] = 12;
+            v[212] = 1;
+            (9, v)
+        }
+        6 => (0x0b, vec![0u8; 256]),
+        _ => (1, vec![0x11; 128]),
+    };
+    let mut t = TxSpec::call(sender % pool::N_EOA, Some(pool::IDX_PRECOMPILE0 + addr - 1), 400_000);
+    t.data = world::DataSpec::Bytes(data);
+    t
 }
 
 #[derive(Clone, Debug, Hash, Serialize, Deserialize)]
@@ -421,7 +456,16 @@ pub fn c31_case(c: &ReuseCase) -> CaseResult {
                 cur = *s;
                 ops.push(HOp::Spec(spec_id(*s)));
             }
-            ReuseOp::Commit(t) | ReuseOp::PreverifyThenTransact(t) => {
+            ReuseOp::Commit(_) | ReuseOp::PreverifyThenTransact(_) | ReuseOp::Precompile(..) => {
+                let owned;
+                let t = match op {
+                    ReuseOp::Commit(t) | ReuseOp::PreverifyThenTransact(t) => t,
+                    ReuseOp::Precompile(a, b) => {
+                        owned = precompile_tx(*a, *b);
+                        &owned
+                    }
+                    _ => unreachable!(),
+                };
                 let tx = t.build(fork, &block, &w);
                 match run_plain(sp, &w, &block, &tx) {
                     Ok(rs) => {
@@ -435,7 +479,7 @@ pub fn c31_case(c: &ReuseCase) -> CaseResult {
                     }
                     Err(_) => after_failure = true,
                 }
-                ops.push(if matches!(op, ReuseOp::Commit(_)) { HOp::Commit(tx) } else { HOp::PreverifyThenTransact(tx) });
+                ops.push(if matches!(op, ReuseOp::Commit(_) | ReuseOp::Precompile(..)) { HOp::Commit(tx) } else { HOp::PreverifyThenTransact(tx) });
             }
             ReuseOp::Try(t) => {
                 let tx = t.build(fork, &block, &w);
@@ -452,7 +496,7 @@ pub fn c31_case(c: &ReuseCase) -> CaseResult {
     }
     let (ra_, rb) = (reads(&mut dba), reads(&mut dbb));
     ensure!(ra_ == rb, "C31|final-state-differs", "final reads differ: {}", first_diff(&ra_, &rb));
-    Ok(Outcome::new(sensitive_after_failure).label_if(c.ops.iter().any(|o| matches!(o, ReuseOp::Spec(_))), "spec-change").label_if(c.ops.iter().any(|o| matches!(o, ReuseOp::Preverify(_) | ReuseOp::PreverifyThenTransact(_))), "preverify").label_if(after_failure, "failing-predecessor"))
+    Ok(Outcome::new(sensitive_after_failure).label_if(c.ops.iter().any(|o| matches!(o, ReuseOp::Spec(_))), "spec-change").label_if(c.ops.iter().any(|o| matches!(o, ReuseOp::Preverify(_) | ReuseOp::PreverifyThenTransact(_))), "preverify").label_if(after_failure, "failing-predecessor").label_if(c.ops.iter().any(|o| matches!(o, ReuseOp::Precompile(..))), "precompile-transaction"))
 }
 
 pub fn c31(ctx: &mut Ctx) {
@@ -464,7 +508,7 @@ pub fn c31(ctx: &mut Ctx) {
     bad.invalid_pct = 60;
     ctx.run_cases(
         "reuse",
-        "histories of 2-7 operations (transact_commit, transact without commit, preverify_transaction, preverify+transact_preverified, modify_spec_id) with valid/invalid/reverting/halting transactions using TSTORE/TLOAD, warm-sensitive gas, logs, precompiles; run A: one long-lived Evm over CacheDB<ModelDB>, run B: a fresh Evm per operation over the database as committed so far; equal result sequences and equal final reads; non-trivial = an executed transaction follows a rejected/failed one",
+        "histories of 2-7 operations (transact_commit, transact without commit, preverify_transaction, preverify+transact_preverified, modify_spec_id) with valid/invalid/reverting/halting transactions using TSTORE/TLOAD, warm-sensitive gas, logs, and transactions sent straight to precompiles whose price depends on the fork (modexp, BN254, BLAKE2F, BLS); run A: one long-lived Evm over CacheDB<ModelDB>, run B: a fresh Evm per operation over the database as committed so far; equal result sequences and equal final reads; non-trivial = an executed transaction follows a rejected/failed one",
         || {
             let op = prop_oneof![
                 5 => world::tx_spec(&cfg).prop_map(ReuseOp::Commit),
@@ -472,14 +516,15 @@ pub fn c31(ctx: &mut Ctx) {
                 2 => world::tx_spec(&cfg).prop_map(ReuseOp::Try),
                 1 => world::tx_spec(&bad).prop_map(ReuseOp::Preverify),
                 2 => world::tx_spec(&cfg).prop_map(ReuseOp::PreverifyThenTransact),
-                1 => (0u8..20).prop_map(ReuseOp::Spec),
+                2 => (0u8..20).prop_map(ReuseOp::Spec),
+                2 => (0u8..4, 0u8..8).prop_map(|(a, b)| ReuseOp::Precompile(a, b)),
             ];
             (world_case(&cfg), prop::collection::vec(op, 1..6)).prop_map(|(world, ops)| ReuseCase { world, ops })
         },
         n,
         c31_case,
     );
-    ctx.expect_labels("reuse", &["spec-change", "preverify", "failing-predecessor"]);
+    ctx.expect_labels("reuse", &["spec-change", "preverify", "failing-predecessor", "precompile-transaction"]);
 }
 
 // ------------------------------------------------------------------------------------------
